@@ -32,6 +32,15 @@ func (db *DB) handleSubscription(ctx context.Context, r *request.Request) (<-cha
 	if !ok {
 		return nil, client.NewErrUnexpectedType[request.ObjectSubscription]("SubscriptionSelection", selections)
 	}
+	// Update events are published for the documents of every collection (and, with an empty
+	// DocID, for the collection-level commits of branchable collections). Only the document
+	// commits of the subscribed collection can yield a result.
+	col, err := db.getCollectionByName(ctx, subRequest.Collection)
+	if err != nil {
+		return nil, err
+	}
+	collectionID := col.Version().CollectionID
+
 	sub, err := db.events.Subscribe(event.UpdateName)
 	if err != nil {
 		return nil, err
@@ -57,6 +66,9 @@ func (db *DB) handleSubscription(ctx context.Context, r *request.Request) (<-cha
 				if !ok {
 					continue // invalid event value
 				}
+				if evt.DocID == "" || evt.CollectionID != collectionID {
+					continue // not a document commit of the subscribed collection
+				}
 			}
 
 			txn, err := db.NewTxn(ctx, false)
@@ -70,7 +82,7 @@ func (db *DB) handleSubscription(ctx context.Context, r *request.Request) (<-cha
 			s := subRequest.ToSelect(evt.DocID, evt.Cid.String())
 
 			result, err := p.RunSelection(ctx, s)
-			if err == nil && len(result) == 0 {
+			if err == nil && isEmptySubscriptionResult(result) {
 				txn.Discard(ctx)
 				continue // Don't send anything back to the client if the request yields an empty dataset.
 			}
@@ -91,4 +103,22 @@ func (db *DB) handleSubscription(ctx context.Context, r *request.Request) (<-cha
 	}()
 
 	return resCh, nil
+}
+
+// isEmptySubscriptionResult returns true if none of the selections of the given result
+// contains a document.
+func isEmptySubscriptionResult(result map[string]any) bool {
+	for _, value := range result {
+		switch docs := value.(type) {
+		case nil:
+			// no documents
+		case []map[string]any:
+			if len(docs) > 0 {
+				return false
+			}
+		default:
+			return false
+		}
+	}
+	return true
 }
